@@ -573,7 +573,9 @@ func (g *Gen) Fill(v reflect.Value, p Params, depth int) {
 				} else if g.Full == 2 {
 					skip = true
 				}
-				if empty || skip || depth > 8 {
+				// optional components deep inside a value are left out of random values (size); the full value of a type has them at every
+				// depth (an OPTIONAL ten levels down, such as backupAMFName in a served GUAMI item, is a component like any other)
+				if empty || skip || (depth > 8 && g.Full != 1) || depth > 18 {
 					continue
 				}
 			}
